@@ -12,7 +12,7 @@ import random
 from ..core import PropCheck, Case, sx, enc
 
 NAMES3 = ['div', 'span', 'p']
-NAMES = ['div', 'span', 'p', 'b', 'ul', 'li']
+NAMES = ['div', 'span', 'p', 'b', 'ul', 'li', 'h2']
 AXES = [None, 'child', 'desc', 'dos', 'parent', 'anc', 'aos']
 AXIS_TEXT = {'child': 'child', 'desc': 'descendant', 'dos': 'descendant-or-self', 'parent': 'parent',
              'anc': 'ancestor', 'aos': 'ancestor-or-self'}
@@ -579,7 +579,7 @@ class Gen(object):
             name = rng.choice(names)
             attrs = [['n', self.numtext()]]
             if rng.random() < 0.5:
-                attrs.append(['k', rng.choice(['x', 'y', 'xy', 'x y', 'abc', 'Foo', '10', '2', ' x '])])
+                attrs.append(['k', rng.choice(['x', 'y', 'xy', 'x y', 'abc', 'Foo', '10', '2', ' x ', 'a]b', 'a,b'])])
             if rng.random() < 0.3:
                 attrs.append(['id', rng.choice(['a', 'b', 'c', 'main'])])
             if rng.random() < 0.2:
@@ -612,7 +612,7 @@ class Gen(object):
     def lit_str(self):
         if self.str_pool and self.rng.random() < 0.5:
             return ['str', self.rng.choice(self.str_pool)]
-        return ['str', self.rng.choice(['x', 'y', 'xy', 'x y', 'abc', 'hi', 't', ' t ', '', '2', '10', 'a,b', 'a)b', 'Foo', 'a b'])]
+        return ['str', self.rng.choice(['x', 'y', 'xy', 'x y', 'abc', 'hi', 't', ' t ', '', '2', '10', 'a,b', 'a)b', 'Foo', 'a b', 'a]b', '[x', 'a=b', 'x and y'])]
 
     def attr(self, numeric=None):
         if numeric is True:
